@@ -54,6 +54,8 @@ func main() {
 	maxSteps := flag.Int64("max-steps", 20000000, "SSA instructions per path (unwinding bound)")
 	maxDepth := flag.Int("max-depth", 400, "call depth bound")
 	delay := flag.Int("delay-bound", 2, "scheduler delay bound")
+	mapOrder := flag.Int("map-order", 0, "explore iteration orders of maps with at most N entries (0: insertion order)")
+	mapOrderIn := flag.String("map-order-in", "", "comma-separated substrings of function names whose range-over-map statements are permuted")
 	knownFile := flag.String("known", "", "known findings JSON (open predicates)")
 	solver := flag.String("solver", "z3-new -in", "solver command")
 	transcript := flag.String("transcript", "", "write SMT transcripts with this prefix")
@@ -354,7 +356,7 @@ func main() {
 		}
 		eng := &sym.Engine{Prog: prog, Stubs: js, Opaque: opaque, NoInit: noinit, Embeds: embeds, Pure: pure}
 		eng.Cfg = sym.Config{Workers: *workers, MaxPaths: *maxPaths, MaxDecisions: *maxDec, MaxSteps: *maxSteps,
-			MaxDepth: *maxDepth, DelayBound: *delay, Params: j.Params, Known: known, Transcript: *transcript,
+			MaxDepth: *maxDepth, DelayBound: *delay, MapOrder: *mapOrder, MapOrderIn: splitNonEmpty(*mapOrderIn), Params: j.Params, Known: known, Transcript: *transcript,
 			Verbose: *verbose, TimeBudget: *timeBudget, ConcreteClock: *clockMode == "concrete"}
 		r := eng.Run(fn)
 		res.Jobs = append(res.Jobs, r)
@@ -391,4 +393,14 @@ var defaultOpaque = []string{
 var defaultNoInit = []string{
 	"runtime", "syscall", "reflect", "internal/poll", "net", "internal/reflectlite", "os/signal",
 	"internal/cpu", "internal/godebug", "crypto/rand", "internal/syscall/unix", "net/http", "crypto/tls", "crypto/x509",
+}
+
+func splitNonEmpty(s string) []string {
+	var out []string
+	for _, x := range strings.Split(s, ",") {
+		if x = strings.TrimSpace(x); x != "" {
+			out = append(out, x)
+		}
+	}
+	return out
 }
